@@ -561,8 +561,9 @@ def check_cli(case, rec):
     if rc or rc2 or rc3:
         raise core.HarnessError("openssl command line failed: %s %s %s" % (err, err2, err3))
     for what, pem, dec in (("ec", sec1, LK.SigningKey.from_pem), ("pkcs8 -topk8", p8, LK.SigningKey.from_pem), ("ec -pubout", pubpem, LK.VerifyingKey.from_pem)):
+        private = what != "ec -pubout"
         k = call("%s: library reading the output of `openssl %s` (%s/%s):\n%s" % (name, what, pname(explicit), enc, pem.decode("latin-1")), dec, pem.decode("ascii"))
-        if dec is LK.SigningKey.from_pem:
+        if private:
             expect_sk(cx, d, pub, k, "`openssl %s` output" % what)
         else:
             expect_vk(cx, pub, k, "`openssl %s` output" % what)
@@ -642,7 +643,7 @@ def try_decode(fn, data):
 
 # decoders by name; `cx` supplies the curve for the string decoders
 def decoder(name, cx):
-    c = cx.c
+    c = cx.c if cx is not None and "from_string" in name else None
     return {
         "vk.from_der": LK.VerifyingKey.from_der,
         "sk.from_der": LK.SigningKey.from_der,
@@ -784,6 +785,17 @@ def structural_variants(seed):
                 yield "struct-" + op, sel, m
 
 
+def all_byte_values(seed):
+    """Every position x every other byte value (superset of the six replacement kinds)."""
+    for i in range(len(seed)):
+        for w in range(256):
+            if w != seed[i]:
+                yield "byte", i, seed[:i] + bytes((w,)) + seed[i + 1:]
+
+
+VARIANTS = {"mutate": single_byte_mutations, "struct": structural_variants, "bytes256": all_byte_values}
+
+
 def sweep_mutations(t, rec, buckets, mode="mutate"):
     """All single-byte mutations (mode 'mutate') or all structural TLV edits (mode 'struct') of one seed. Returns (evaluations, non-trivial)."""
     cx = Cx.get(t["curve"])
@@ -799,7 +811,7 @@ def sweep_mutations(t, rec, buckets, mode="mutate"):
     seen = {seed}
     ev = nt = 0
     counts = {}
-    for kind, i, m in (single_byte_mutations(seed) if mode == "mutate" else structural_variants(seed)):
+    for kind, i, m in VARIANTS[mode](seed):
         if m in seen:
             continue
         seen.add(m)
@@ -855,8 +867,8 @@ def all_targets(tier, what):
     else:
         names = NAMES
     kind = what
-    if what == "struct":
-        what = "mutate"  # same seeds, restricted to DER below
+    if what in ("struct", "bytes256"):
+        what = "mutate"  # same seeds, restricted below
     for name in names:
         sp = special_keys(name)
         ks = [seeded_scalar(name, 100)]
@@ -877,6 +889,8 @@ def all_targets(tier, what):
 
     if kind == "struct":
         ts = [t for t in ts if t["dec"].split(":")[0].endswith("from_der")]
+    if kind == "bytes256":  # ECParameters and the string decoders only (cheap per decode, and where field values matter)
+        ts = [t for t in ts if t["dec"] in ("curve.from_der", "vk.from_string", "sk.from_string", "plug.pub.from_raw")]
     ts.sort(key=lambda t: -cost(t))
     return ts
 
@@ -937,8 +951,8 @@ def sweep_trunc(t, rec, buckets):
         if status == "rej":
             rec.cls("trunc.rejected")
             continue
-        what = "%s: %s %s of the %s %s/%s/%s encoding %s" % (
-            t["curve"], ("%d-byte prefix" % arg) if kind == "prefix" else ("extension by %02x" % arg), "", t.get("src", "library"),
+        what = "%s: %s of the %s-made %s/%s/%s encoding %s" % (
+            t["curve"], ("%d-byte prefix" % arg) if kind == "prefix" else ("extension by %02x" % arg), t.get("src", "library"),
             pname(t.get("explicit")), t.get("enc", "-"), t.get("fmt", "-"), seed.hex())
         if status == "bad":
             buckets.add(r, t["dec"], m, what)
@@ -1112,6 +1126,78 @@ def strat_generated(tier):
     ))
 
 
+# ------------------------------------------------------------------------------------------------ part: fuzz (atheris / libFuzzer campaigns)
+
+FUZZ_TARGETS = ("vk.from_der", "sk.from_der", "vk.from_pem", "sk.from_pem", "curve.from_der", "vk.from_string", "sk.from_string")
+FUZZ_UNITS = [(t, c) for t in FUZZ_TARGETS for c in ("seeded", "empty")]
+FUZZ_RUNS = {"quick": 15000, "thorough": 1000000}
+
+
+def fuzz_decoder(target):
+    """Same input convention as vlib/c19fuzz.py: the string decoders take the curve from the first byte."""
+    if target.endswith("from_string"):
+        ws = [c for c in LC.curves if c.name not in ("Ed25519", "Ed448")]
+        f = LK.VerifyingKey.from_string if target.startswith("vk") else LK.SigningKey.from_string
+        return lambda b: f(bytes(b[1:]), ws[b[0] % len(ws)]) if b else None
+    return decoder(target, None)
+
+
+def check_fuzz_input(case, rec):
+    rec.nt()
+    status, r = try_decode(fuzz_decoder(case["dec"]), case["data"])
+    if status == "bad":
+        b = Buckets()
+        b.add(r, case["dec"], case["data"], "found by the libFuzzer campaign")
+        msg = b.settle(rec, "fuzz input for %s" % case["dec"])
+        if msg:
+            raise Violation(msg)
+
+
+def bulk_fuzz(tier, shard, nshards, rec, rng):
+    import json
+    import shutil
+    import subprocess
+    import sys
+    import tempfile
+
+    target, corpus = FUZZ_UNITS[shard % len(FUZZ_UNITS)]
+    runs = FUZZ_RUNS[tier]
+    work = tempfile.mkdtemp(prefix="c19fuzz-")
+    try:
+        r = subprocess.run([sys.executable, "-m", "vlib.c19fuzz", target, str(runs), str(rng.getrandbits(30) + 1), corpus, work],
+                           cwd=env.VERIF, capture_output=True, text=True, errors="replace")
+        try:
+            stats = json.load(open(os.path.join(work, "result.json")))
+        except Exception:
+            raise core.HarnessError("fuzz campaign %s/%s produced no result (exit %s): %s" % (target, corpus, r.returncode, r.stderr[-1500:]))
+    finally:
+        shutil.rmtree(work, True)
+    if not stats.get("done") or stats["runs"] < runs:
+        raise core.HarnessError("fuzz campaign %s/%s stopped after %d of %d runs (exit %s): %s" % (target, corpus, stats["runs"], runs, r.returncode, r.stderr[-1500:]))
+    rec.bulk("fuzz", stats["runs"], stats["nontrivial"], sample=dict(target=target, corpus=corpus, runs=stats["runs"], accepted=stats["accepted"], rejected=stats["rejected"]))
+    rec.cls("fuzz.target=" + target)
+    rec.cls("fuzz.corpus=" + corpus)
+    rec.cls("fuzz.accepted", stats["accepted"])
+    rec.cls("fuzz.undocumented", stats["undocumented"])
+    for k, v in stats["rejected"].items():
+        rec.cls("fuzz.rejected." + k, v)
+    listed = core.load_findings().get(PROPERTY, {})
+    bad = []
+    for fid, b in sorted(stats["buckets"].items()):
+        desc = "%s x%d e.g. %s(%s) [libFuzzer %s corpus] -> %s via %s" % (fid, b["n"], target, b["data"], corpus, b["text"], b["chain"])
+        if fid in listed:
+            for _ in range(b["n"]):
+                rec.hit_known(Known(fid, desc))
+        else:
+            rec.note("undocumented exception bucket " + desc)
+            bad.append((fid, b, desc))
+    if bad:
+        fid, b, _ = bad[0]
+        return dict(dec=target, data=bytes.fromhex(b["data"])), "fuzz %s: %d undocumented exception bucket(s): %s" % (
+            target, len(bad), " || ".join(d + " [would match finding id %s if it were listed]" % f for f, _, d in bad))
+    return None
+
+
 # ------------------------------------------------------------------------------------------------ parts
 
 
@@ -1124,5 +1210,7 @@ def parts(tier):
         Part("trunc", check=check_sweep, bulk=bulk_sweeps("trunc"), quick=(16, 0), thorough=(16, 0), exhaustive=True),
         Part("mutate", check=check_sweep, bulk=bulk_sweeps("mutate"), quick=(16, 0), thorough=(16, 0), exhaustive=True),
         Part("struct", check=check_sweep, bulk=bulk_sweeps("struct"), quick=(8, 0), thorough=(16, 0), exhaustive=True),
+        Part("bytes256", check=check_sweep, bulk=bulk_sweeps("bytes256"), quick=(8, 0), thorough=(16, 0), exhaustive=True),
+        Part("fuzz", check=check_fuzz_input, bulk=bulk_fuzz, quick=(len(FUZZ_UNITS), 0), thorough=(len(FUZZ_UNITS), 0)),
         Part("generated", check=check_generated, strategy=strat_generated, quick=(16, 60), thorough=(16, 2500)),
     ]
